@@ -1608,9 +1608,10 @@ func (c *control) dirIter(colon, at bool, params []any) {
 	case colon && at:
 		// The iteration consumes format arguments that must be lists.
 		for ; 0 < n; n-- {
-			if (len(c.args) <= c.argPos && !atLeastOnce) || c2.stop {
+			if len(c.args) <= c.argPos && !atLeastOnce {
 				break
 			}
+			c2.stop = false // ~^ ends one step, the next sublist is still processed
 			c2.args = slip.List{}
 			if c.argPos < len(c.args) {
 				c2.args = c.objAsList(c.args[c.argPos], "iteration directive argument")
@@ -1635,10 +1636,11 @@ func (c *control) dirIter(colon, at bool, params []any) {
 			argList = slip.List{slip.List{}}
 		}
 		for _, al := range argList {
-			if n <= 0 || c2.stop {
+			if n <= 0 {
 				break
 			}
 			n--
+			c2.stop = false // ~^ ends one step, the next sublist is still processed
 			c2.args = c.objAsList(al, "iteration directive sub-argument")
 			c2.argPos = 0
 			c2.pos = start
